@@ -70,6 +70,7 @@ def plan(tier, seed):
         jobs.append({"variant": v, "part": "threads", "shard": 108, "nshards": 1, "params": {"threads": 8, "rounds": 6 if thorough else 2, "steps": 100 if thorough else 40, "inject": True}})
         for n in (4, 8):
             jobs.append({"variant": v, "part": "roles", "shard": 400 + n, "nshards": 1, "params": {"threads": n, "rounds": 6 if thorough else 3, "iters": 60000 if thorough else 12000}})
+        jobs.append({"variant": v, "part": "coldstart", "shard": 500, "nshards": 1, "params": {"trials": 120 if thorough else 16}})
     if thorough:
         for n in (4, 16):
             jobs.append({"variant": "asan", "part": "threads", "shard": 200 + n, "nshards": 1, "params": {"threads": n, "rounds": 10, "steps": 400, "inject": False}})
@@ -511,6 +512,58 @@ def run_roles(ctx):
     ctx.sample({"threads": nthreads, "part": "roles"})
 
 
+def run_coldstart(ctx):
+    """First use under contention: each trial is a FRESH interpreter (yv/coldstart.py) whose first yarl operations are issued by N
+    threads released together; the expectation is the same operations done one after the other in another fresh interpreter.
+    Whatever the library initialises lazily (codec tables, caches, singletons) is thereby first touched by several threads at once."""
+    import json
+    import os
+    import subprocess
+
+    script = os.path.join(os.path.dirname(os.path.dirname(os.path.abspath(__file__))), "coldstart.py")
+
+    def child(mode, n):
+        try:
+            p = subprocess.run([sys.executable, script, mode, str(n)], capture_output=True, text=True, timeout=180)
+        except subprocess.TimeoutExpired:
+            return None, "timeout"
+        if p.returncode != 0:
+            return None, f"rc={p.returncode} {p.stderr[-300:]}"
+        try:
+            return json.loads(p.stdout), None
+        except ValueError:
+            return None, f"unparsable output {p.stdout[-200:]!r} {p.stderr[-200:]!r}"
+
+    want = {}
+    for trial in range(ctx.params["trials"]):
+        n = (4, 8, 12, 16)[trial % 4]
+        if n not in want:
+            want[n], err = child("seq", n)
+            if want[n] is None or any(isinstance(x, str) and x.startswith("EXC:") for x in want[n]):
+                ctx.count("coldstart_reference_unavailable")
+                ctx.notes["coldstart_reference_error"] = str(err or want[n])[:300]
+                want[n] = None
+        if want[n] is None:
+            continue
+        got, err = child("par", n)
+        ctx.count("coldstart_trials")
+        case = {"part": "coldstart", "trial": trial, "threads": n}
+        if got is None:
+            ctx.ev(("coldstart", n, "child-failed"))
+            if err == "timeout":
+                ctx.count("coldstart_timeouts")  # inconclusive, not a verdict
+            else:
+                ctx.fail("cold_start_crash", case, f"fresh interpreter with {n} threads: {err}")
+            continue
+        bad = [(i, g, w) for i, (g, w) in enumerate(zip(got, want[n])) if g != w]
+        ctx.ev(("coldstart", n, "differs" if bad else "equal"))
+        ctx.count("coldstart_ops_checked", len(got))
+        if bad:
+            i, g, w = bad[0]
+            kind = "thread_blocked_forever" if g == "BLOCKED" else "thread_exception" if isinstance(g, str) and g.startswith("EXC:") else "differs_from_sequential"
+            ctx.fail(kind, case, f"first use from {n} threads in a fresh interpreter: op {i} gave {g!r}, a sequential fresh interpreter gives {w!r} ({len(bad)} of {len(got)} ops differ)")
+
+
 def run(ctx):
     import os
 
@@ -526,6 +579,9 @@ def run(ctx):
         return
     if ctx.part == "roles":
         run_roles(ctx)
+        return
+    if ctx.part == "coldstart":
+        run_coldstart(ctx)
         return
     warnings.simplefilter("ignore")
     P = ctx.params
@@ -680,6 +736,8 @@ def finalize(merged, results, tier):
         unmet.append("no thread event was checked")
     if c.get("role_calls_checked", 0) == 0:
         unmet.append("the role-split phase checked no call")
+    if c.get("coldstart_trials", 0) == 0:
+        unmet.append("no fresh-interpreter first-use trial ran")
     if c.get("churn_calls", 0) == 0:
         unmet.append("cache churn threads never ran")
     lines, pairs = set(), set()
